@@ -54,12 +54,15 @@ def parseReq (op : String) : Option VP.Req :=
 def handleVarPool (line : String) : String :=
   match line.splitOn "|" with
   | [pre, ops] =>
-    let p0 := (words pre).foldl (fun p b => (VP.getNameCur p b).1) VP.seedPool
+    let p0 := (words pre).foldl (fun p b => match VP.getNameFix p b with
+      | some (p', _) => p'
+      | none => p) VP.seedPool
     let reqs := (words ops).map parseReq
     if reqs.any Option.isNone then "BAD"
     else
-      let (_, outs) := VP.runCur p0 ((reqs.filterMap id).map VP.Req.base)
-      "V " ++ " ".intercalate outs
+      match VP.runFix p0 ((reqs.filterMap id).map VP.Req.base) with
+      | some (_, outs) => "V " ++ " ".intercalate outs
+      | none => "FUEL"
   | _ => "BAD"
 
 def lastPathElement (p : String) : String := (p.splitOn "/").getLastD p
